@@ -1104,6 +1104,13 @@ def c16(case: dict, cv: CallView, out: list) -> dict:
             if cv.final["via"] != "raise" or cv.final["type"] != "ValueError":
                 out.append(("C16:invalid-decision-accepted", f"handler returned a non-SleepDecision but the call ended with {cv.final}"))
             continue
+        if decision.startswith("str:"):
+            # a plain string instead of the enum member: refusing it (ValueError, nothing further happens) is fine,
+            # and so is treating it exactly like the member; anything in between is not
+            refused = cv.final["via"] == "raise" and cv.final.get("type") == "ValueError" and not befores and not sleeps and last
+            if refused:
+                continue
+            decision = decision[4:]
         if decision == "sleep":
             if want_b != "none":
                 if len(befores) != 1 or befores[0][1][1] != want_b or not _same_float(befores[0][1][3], delay):
